@@ -6,12 +6,13 @@
 (***************************************************************************)
 EXTENDS GroupBy, Operators, ConsistentOutput, Tvf, InputRules
 
-OpInit(cfg) == CASE cfg.op = "gb"  -> GbInit(cfg)
+(* ---- base operators ---- *)
+BaseInit(cfg) == CASE cfg.op = "gb"  -> GbInit(cfg)
                  [] cfg.op = "mdw" -> MdwInit
                  [] cfg.op = "limit" -> 0
                  [] OTHER          -> <<>>
 
-OpStep(cfg, st, msg) ==
+BaseStep(cfg, st, msg) ==
   CASE cfg.op = "gb"       -> GbStep(cfg, st, msg)
     [] cfg.op = "filter"   -> FilterStep(cfg, st, msg)
     [] cfg.op = "map"      -> MapStep(cfg, st, msg)
@@ -25,7 +26,7 @@ OpStep(cfg, st, msg) ==
     [] cfg.op = "lookup"   -> LookupStep(cfg, st, msg)
     [] cfg.op = "unnest"   -> UnnestStep(cfg, st, msg)
 
-OpEos(cfg, st) ==
+BaseEos(cfg, st) ==
   CASE cfg.op = "gb"    -> GbEos(cfg, st)
     [] cfg.op = "etbuf" -> EtbufEos(cfg, st)
     [] cfg.op = "cout"  -> CoutEos(cfg, st)
@@ -34,7 +35,7 @@ OpEos(cfg, st) ==
     [] cfg.op = "poll"  -> [st |-> st, out |-> PollObserved(cfg)]
     [] OTHER            -> [st |-> st, out |-> <<>>]
 
-OpBatch(cfg, inBag) ==
+BaseBatch(cfg, inBag) ==
   CASE cfg.op = "gb"       -> GbBatch(cfg, inBag)
     [] cfg.op = "filter"   -> FilterBatch(cfg, inBag)
     [] cfg.op = "map"      -> MapBatch(cfg, inBag)
@@ -44,6 +45,31 @@ OpBatch(cfg, inBag) ==
     [] cfg.op = "orderby"  -> OrderByBatch(cfg, inBag)
     [] cfg.op = "lookup"   -> LookupBatch(cfg, inBag)
     [] cfg.op = "unnest"   -> UnnestBatch(cfg, inBag)
+
+
+(* ---- small pipelines: cfg = [op |-> "pipe", stages |-> <<cfg1, cfg2, ...>>], the output of a stage is the input of the next;   ---- *)
+(* ---- at end of stream a stage first receives what the previous stage emits at its end, then ends itself                       ---- *)
+RECURSIVE FeedAll(_, _, _)
+FeedAll(c, st, msgs) ==      \* feed a sequence of messages to one base operator: [st, out]
+  IF msgs = <<>> THEN [st |-> st, out |-> <<>>]
+  ELSE LET r == BaseStep(c, st, Head(msgs)) rest == FeedAll(c, r.st, Tail(msgs)) IN [st |-> rest.st, out |-> r.out \o rest.out]
+RECURSIVE PipeFeed(_, _, _, _)
+PipeFeed(stages, sts, i, msgs) ==     \* msgs enter stage i; returns the new stage states and what leaves the last stage
+  IF i > Len(stages) THEN [st |-> sts, out |-> msgs]
+  ELSE LET r == FeedAll(stages[i], sts[i], msgs) IN PipeFeed(stages, [sts EXCEPT ![i] = r.st], i + 1, r.out)
+RECURSIVE PipeEnd(_, _, _, _)
+PipeEnd(stages, sts, i, msgs) ==      \* stage i receives msgs (the end-of-stream output of the stages before it), then ends
+  IF i > Len(stages) THEN [st |-> sts, out |-> msgs]
+  ELSE LET r == FeedAll(stages[i], sts[i], msgs)
+           e == BaseEos(stages[i], r.st)
+       IN PipeEnd(stages, [sts EXCEPT ![i] = e.st], i + 1, r.out \o e.out)
+RECURSIVE PipeBatch(_, _, _)
+PipeBatch(stages, i, bag) == IF i > Len(stages) THEN bag ELSE PipeBatch(stages, i + 1, Norm(BaseBatch(stages[i], bag)))
+
+OpInit(cfg) == IF cfg.op = "pipe" THEN [i \in 1..Len(cfg.stages) |-> BaseInit(cfg.stages[i])] ELSE BaseInit(cfg)
+OpStep(cfg, st, msg) == IF cfg.op = "pipe" THEN PipeFeed(cfg.stages, st, 1, <<msg>>) ELSE BaseStep(cfg, st, msg)
+OpEos(cfg, st) == IF cfg.op = "pipe" THEN PipeEnd(cfg.stages, st, 1, <<>>) ELSE BaseEos(cfg, st)
+OpBatch(cfg, inBag) == IF cfg.op = "pipe" THEN PipeBatch(cfg.stages, 1, inBag) ELSE BaseBatch(cfg, inBag)
 
 (* ---- Layer P: "" when the property holds on what has been observed, else the reason ---- *)
 WmsIn(s) == {i \in 1..Len(s) : IsWm(s[i])}
